@@ -14,6 +14,7 @@ EncInit == e = EInit(<<>>, FALSE, Strict)
 
 ESupply(t) == /\ EWaiting(e) /\ Len(e.toks) < MaxLen
               /\ (Len(e.toks) = 0 => t \in FirstSyms)
+              /\ (Len(e.toks) = 1 => t \in SecondSyms)
               /\ e' = [e EXCEPT !.toks = Append(@, t)]
 EClose == /\ EWaiting(e) /\ (Len(e.toks) = 0 => AllowEmpty) /\ e' = [e EXCEPT !.closed = TRUE]
 EKek   == /\ EKind(e) = "Kek" /\ \E n \in KekChoices(e) : e' = n
